@@ -64,24 +64,30 @@ func (pq *pqList) Insert(id interface{}, expireAt time.Time) {
 	pq.insert(id, expireAt)
 }
 func (pq *pqList) insert(id interface{}, expireAt time.Time) {
-	pq.mtx.RLock()
 	deadline := expireAt.Round(time.Second)
+	// the bucket must be filled while the list lock is held: Expire (write lock) pops
+	// buckets and reads their content, a put after the lock was released could land in a
+	// bucket that has just been expired and be lost.
+	pq.mtx.RLock()
 	elt, ok := pq.buckets[deadline]
+	if ok {
+		elt.put(id, expireAt)
+		pq.mtx.RUnlock()
+		return
+	}
 	pq.mtx.RUnlock()
-	if !ok {
-		pq.mtx.Lock()
-		defer pq.mtx.Unlock()
-		if elt, ok = pq.buckets[deadline]; !ok {
-			elt = &bucket{
-				data: []item{
-					{value: id, deadline: expireAt},
-				},
-				deadline: deadline,
-			}
-			pq.buckets[deadline] = elt
-			heap.Push(&pq.pq, elt)
-			return
+	pq.mtx.Lock()
+	defer pq.mtx.Unlock()
+	if elt, ok = pq.buckets[deadline]; !ok {
+		elt = &bucket{
+			data: []item{
+				{value: id, deadline: expireAt},
+			},
+			deadline: deadline,
 		}
+		pq.buckets[deadline] = elt
+		heap.Push(&pq.pq, elt)
+		return
 	}
 	elt.put(id, expireAt)
 }
